@@ -532,8 +532,10 @@ fn kv_mode(inputs: &[Value], seed: u64, si: usize, sn: usize, out: &mut TraceOut
     // deep pipelining of large replies without reading: the replies must come out byte-exact under
     // back-pressure (too large for the trace: the driver's independent splitter counts exact replies)
     if si == 0 {
-        for (vlen, depth) in [(8191usize, 600usize), (8192, 600), (65536, 200)] {
-            pend.set(&json!({"ev": "kvbulk", "vlen": vlen, "depth": depth, "phase": "run"}));
+        // (the last one: the client half-closes after its last request and reads late and slowly - every
+        // reply must still arrive, the server's close must not cut what it has already written)
+        for (vlen, depth, halfclose) in [(8191usize, 600usize, false), (8192, 600, false), (65536, 200, false), (262144, 16, true)] {
+            pend.set(&json!({"ev": "kvbulk", "vlen": vlen, "depth": depth, "halfclose": halfclose, "phase": "run"}));
             let sc = Scratch::new("net");
             let kv = open_real_store(sc.path(), 1_000_000);
             let h = kv.get_handle();
@@ -558,11 +560,42 @@ fn kv_mode(inputs: &[Value], seed: u64, si: usize, sn: usize, out: &mut TraceOut
                         }
                     }
                 });
-                std::thread::sleep(Duration::from_millis(300));
                 let expect = bulk(&value);
                 let total = expect.len() * depth;
-                let (b, e) = read_some(&mut s, total, Duration::from_secs(20));
-                let _ = wt.join();
+                let (b, e) = if halfclose {
+                    let _ = wt.join();
+                    let _ = s.shutdown(std::net::Shutdown::Write);
+                    std::thread::sleep(Duration::from_millis(300));
+                    // 16 KiB per millisecond
+                    let mut b: Vec<u8> = Vec::with_capacity(total);
+                    let mut chunk = vec![0u8; 16384];
+                    let _ = s.set_read_timeout(Some(Duration::from_secs(5)));
+                    let mut e = "ok";
+                    while b.len() < total {
+                        match s.read(&mut chunk) {
+                            Ok(0) => {
+                                e = "eof";
+                                break;
+                            }
+                            Ok(k) => b.extend_from_slice(&chunk[..k]),
+                            Err(x) if x.kind() == std::io::ErrorKind::WouldBlock || x.kind() == std::io::ErrorKind::TimedOut => {
+                                e = "timeout";
+                                break;
+                            }
+                            Err(_) => {
+                                e = "reset";
+                                break;
+                            }
+                        }
+                        std::thread::sleep(Duration::from_millis(1));
+                    }
+                    (b, e)
+                } else {
+                    std::thread::sleep(Duration::from_millis(300));
+                    let r = read_some(&mut s, total, Duration::from_secs(20));
+                    let _ = wt.join();
+                    r
+                };
                 got_len = b.len();
                 if e != "ok" {
                     ending = e;
@@ -921,6 +954,21 @@ fn limit_mode(inputs: &[Value], _seed: u64, si: usize, sn: usize, out: &mut Trac
                     tl.close(&vc);
                     drop(victim);
                 }
+                // half a frame whose bytes are not ASCII: a two-byte character straddling every offset from
+                // 40 to 60 (whatever the server does with leftover input must not depend on its bytes)
+                "half-frame-utf8" => {
+                    tl.send(&vc, "half");
+                    let mut b = b"*3\r\n$3\r\nSET\r\n$1\r\nk\r\n$400\r\n".to_vec();
+                    let odd = held.len() % 2;
+                    b.extend(std::iter::repeat(b'a').take(13 + odd));
+                    for _ in 0..40 {
+                        b.extend_from_slice("é".as_bytes());
+                    }
+                    let _ = victim.write_all(&b);
+                    std::thread::sleep(Duration::from_millis(20));
+                    tl.close(&vc);
+                    drop(victim);
+                }
                 "half-frame-open" => {
                     // sends half a frame and goes away without closing cleanly (RST)
                     tl.send(&vc, "half");
@@ -929,10 +977,12 @@ fn limit_mode(inputs: &[Value], _seed: u64, si: usize, sn: usize, out: &mut Trac
                     tl.close(&vc);
                     drop(victim);
                 }
-                "malformed" | "garbage" | "panic" | "store-error" => {
+                "malformed" | "garbage" | "garbage-binary" | "panic" | "store-error" => {
                     let (bytes, kind, step): (Vec<u8>, &str, &str) = match ending.as_str() {
                         "malformed" => (b"*1\r\n$4\r\nNOPE\r\n".to_vec(), "bad", "malformed-closed-by-server"),
                         "garbage" => (b"!!!\r\n".to_vec(), "bad", "garbage-closed-by-server"),
+                        // 300 bytes that are not RESP and not UTF-8 (a TLS hello, say), no line break
+                        "garbage-binary" => ((0..300u32).map(|i| if i % 3 == 0 { 0x16 } else { 0x80 + (i * 7 % 0x7f) as u8 }).collect(), "bad", "garbage-closed-by-server"),
                         "panic" => (cmd(&[b"GET", b"boom"]), "boom", "panic-closed-by-server"),
                         _ => (cmd(&[b"GET", b"fail"]), "boom", "error-closed-by-server"),
                     };
@@ -1152,9 +1202,13 @@ fn lin_mode(inputs: &[Value], seed: u64, si: usize, sn: usize, out: &mut TraceOu
         let windows = inp["windows"].as_u64().unwrap_or(4) as usize;
         let delay = inp["delay_us"].as_u64().unwrap_or(300);
         let merger = inp["merger"].as_bool().unwrap_or(true);
+        // exact: every entry has the same size and the file size is a multiple of it (exact-fit rollovers)
+        let exact = inp["exact"].as_bool().unwrap_or(false);
+        // clock: the wall clock is stepped back further and further between windows
+        let clock = inp["clock"].as_bool().unwrap_or(false);
         pend.set(&json!({"ev": "lin", "phase": "run", "input": inp}));
         let sc = Scratch::new("net");
-        let kv = open_real_store(sc.path(), 90);
+        let kv = open_real_store(sc.path(), if exact { 160 } else { 90 });
         let h = kv.get_handle();
         let srv = start_server(h.clone(), 32);
         DELAY_US.store(delay, Ordering::SeqCst);
@@ -1173,6 +1227,9 @@ fn lin_mode(inputs: &[Value], seed: u64, si: usize, sn: usize, out: &mut TraceOu
             None
         };
         for w in 0..windows {
+            if clock && w % 2 == 1 {
+                bcverif::shim::set_clock_skew(-3600 * (w as i64 + 1));
+            }
             // every window is a quiescent-to-quiescent history judged on its own; it starts from
             // what the previous ones left, which is read through a Handle
             let keys: Vec<Vec<u8>> = (0..nkeys).map(|k| format!("key{k}").into_bytes()).collect();
@@ -1193,8 +1250,11 @@ fn lin_mode(inputs: &[Value], seed: u64, si: usize, sn: usize, out: &mut TraceOu
                         let k = rng.pick(&keys).clone();
                         let r = rng.below(10);
                         // values are unique per writer so that a read identifies its write
-                        let (op, req, val) = if r < 4 {
-                            let v = format!("c{c}w{w}o{o}").into_bytes();
+                        let (op, req, val) = if r < 4 || (exact && r >= 8) {
+                            let mut v = format!("c{c}w{w}o{o}").into_bytes();
+                            if exact {
+                                v.resize(11, b'_');
+                            }
                             ("set", cmd(&[b"SET", &k, &v]), Some(v))
                         } else if r < 8 {
                             ("get", cmd(&[b"GET", &k]), None)
@@ -1245,6 +1305,7 @@ fn lin_mode(inputs: &[Value], seed: u64, si: usize, sn: usize, out: &mut TraceOu
             let _ = m.join();
         }
         DELAY_US.store(0, Ordering::SeqCst);
+        bcverif::shim::set_clock_skew(0);
         srv.stop();
         drop(kv);
         pend.clear();
